@@ -39,15 +39,19 @@ Pre == <<120, 58, 61, 39>>               \* x:='
 Post == <<39, 59>>                       \* ';
 FPre == <<120, 32, 58, 61, 32, 39>>      \* x := '
 FPost == <<39, 59, 10>>                  \* ';<LF>
-Program(t) == Pre \o t \o Post
-Formatted(t) == FPre \o t \o FPost
+\* `lead`: the text itself may begin with U+FEFF (ZERO WIDTH NO-BREAK SPACE). After a real BOM that is a "double BOM";
+\* without one (UTF-16 given by the option, windows-1252 cannot hold it) it is still text. Only the first BOM is a BOM:
+\* the second U+FEFF is the first character of an identifier and must come back.
+Leads == {<<>>, <<65279>>}
 
-VARIABLES text, stored, option, damage,
+VARIABLES text, stored, option, damage, lead,
           bytes,        \* the file
           sniffed,      \* encoding chosen after looking at the BOM
           decoded,      \* "none" | "ok" | "malformed"
           phase, error
-vars == <<text, stored, option, damage, bytes, sniffed, decoded, phase, error>>
+vars == <<text, stored, option, damage, lead, bytes, sniffed, decoded, phase, error>>
+Program(t) == lead \o Pre \o t \o Post
+Formatted(t) == lead \o FPre \o t \o FPost
 
 Texts == {<<>>} \cup {<<a>> : a \in Chars} \cup {<<a, b>> : a \in Chars, b \in {97, 128515}}
 
@@ -65,8 +69,11 @@ Malformed(t, e, d) ==
     [] d = "truncated" -> EncName(e) \in {"utf-16le", "utf-16be"}          \* an odd number of bytes; (utf-8 / cp1252: the last byte is the ASCII `;`)
     [] d = "bad_byte" -> EncName(e) # "windows-1252"
 
-Init == /\ text \in Texts /\ stored \in Stored /\ option \in Options /\ damage \in Damages
+Init == /\ text \in Texts /\ stored \in Stored /\ option \in Options /\ damage \in Damages /\ lead \in Leads
         /\ Representable(EncName(stored), text)
+        /\ lead # <<>> => EncName(stored) # "windows-1252"
+        \* U+FEFF at the very start of a file without BOM would BE a BOM: that is the stored form "<enc>_bom"
+        /\ lead # <<>> => Bom(stored) # <<>>
         \* a file without BOM is read with the option: the scenario stores it in that encoding
         /\ Bom(stored) = <<>> => option = EncName(stored)
         /\ damage = "truncated" => EncName(stored) \in {"utf-16le", "utf-16be"}
@@ -82,19 +89,19 @@ SniffBom == /\ phase = "start"
                           ELSE IF HasPrefix(bytes, <<255, 254>>) THEN "utf-16le"
                           ELSE IF HasPrefix(bytes, <<254, 255>>) THEN "utf-16be" ELSE option
             /\ phase' = "sniffed"
-            /\ UNCHANGED <<text, stored, option, damage, bytes, decoded, error>>
+            /\ UNCHANGED <<text, stored, option, damage, lead, bytes, decoded, error>>
 
 Decode == /\ phase = "sniffed"
           /\ IF Malformed(text, stored, damage)
                THEN decoded' = "malformed" /\ error' = TRUE /\ phase' = "done"
                ELSE decoded' = "ok" /\ UNCHANGED error /\ phase' = "decoded"
-          /\ UNCHANGED <<text, stored, option, damage, bytes, sniffed>>
+          /\ UNCHANGED <<text, stored, option, damage, lead, bytes, sniffed>>
 
 \* the result is written in the encoding it was read in, behind the same BOM
 Write == /\ phase = "decoded"
          /\ bytes' = Bom(stored) \o Enc(sniffed, Formatted(text))
          /\ phase' = "done"
-         /\ UNCHANGED <<text, stored, option, damage, sniffed, decoded, error>>
+         /\ UNCHANGED <<text, stored, option, damage, lead, sniffed, decoded, error>>
 
 Next == SniffBom \/ Decode \/ Write
 Spec == Init /\ [][Next]_vars
@@ -104,6 +111,6 @@ BomDecides == phase # "start" /\ Bom(stored) # <<>> => sniffed = EncName(stored)
 RoundTrip == phase = "done" /\ ~error => bytes = Bom(stored) \o Enc(EncName(stored), Formatted(text))
 MalformedUntouched == phase = "done" /\ error => bytes = Bom(stored) \o Damage(Enc(EncName(stored), Program(text)), damage, stored)
 
-Emit == phase = "done" => PrintT(<<"REPLAY", ToJson([stored |-> stored, option |-> option, damage |-> damage, text |-> text,
+Emit == phase = "done" => PrintT(<<"REPLAY", ToJson([stored |-> stored, option |-> option, damage |-> damage, text |-> lead \o text,
             input |-> Bom(stored) \o Damage(Enc(EncName(stored), Program(text)), damage, stored), error |-> error, output |-> bytes])>>)
 =============================================================================
